@@ -338,10 +338,28 @@ func (w *World) lightUndo(in *Inst, lc *lightClient, st *Step) {
 	bp := g.H("proof.Proof", proofH)
 	var newH []Hash
 	var err error
+	// a second cached proof holding the same leaves (another wallet fed from the same block
+	// data): it is undone after the first one, with the very same slices
+	twin := &lightClient{P: utreexo.Proof{Targets: append([]uint64{}, lc.P.Targets...), Proof: append([]Hash{}, lc.P.Proof...)}, H: append([]Hash{}, lc.H...)}
+	nBefore := w.big(w.n)
 	pan := protect(func() {
-		newH, err = lc.P.Undo(uint64(st.K), w.big(w.n), dl, dh, ch, td, utreexo.Proof{Targets: bt, Proof: bp})
+		newH, err = lc.P.Undo(uint64(st.K), nBefore, dl, dh, ch, td, utreexo.Proof{Targets: bt, Proof: bp})
 	})
 	g.end()
+	if pan == "" && err == nil {
+		var tH []Hash
+		var terr error
+		tpan := protect(func() {
+			tH, terr = twin.P.Undo(uint64(st.K), nBefore, dl, dh, twin.H, td, utreexo.Proof{Targets: bt, Proof: bp})
+		})
+		if tpan != "" || terr != nil {
+			w.fail(props, in, "error", fmt.Sprintf("Proof.Undo of a second cached proof with the same block data failed: %v %s", terr, tpan), nil, nil)
+		} else {
+			twin.H = tH
+			twin.S = lc.stumps[len(lc.stumps)-1]
+			w.compareHolding(in, twin, st, Rprev, props, "after Proof.Undo of a second cached proof with the same block data")
+		}
+	}
 	// the verifier state is rolled back by restoring the saved value
 	lc.S = lc.stumps[len(lc.stumps)-1]
 	lc.stumps = lc.stumps[:len(lc.stumps)-1]
